@@ -21,6 +21,7 @@ import (
 	"math/rand/v2"
 	"os"
 	"path/filepath"
+	"runtime"
 	"sort"
 	"strings"
 	"testing"
@@ -319,7 +320,7 @@ func (h *c16Hist) entries() int {
 }
 
 func (h *c16Hist) snapshotCloseCopy() bool {
-	if err := h.db.Close(); err != nil {
+	if err := mdkClose(h.db); err != nil {
 		h.r.Violation("C16/primary/close-error", err.Error(), h.witness(nil))
 		h.db = nil
 		return false
@@ -661,7 +662,7 @@ func c16RunHistory(r *verifkit.Run, w *verifkit.Worker, idx, nOps int) {
 	h.db = db
 	defer func() {
 		if h.db != nil {
-			_ = h.db.Close()
+			_ = mdkClose(h.db)
 		}
 	}()
 	h.gen = &mdkGen{rnd: rnd, m: h.m}
@@ -716,7 +717,7 @@ func c16RunHistory(r *verifkit.Run, w *verifkit.Worker, idx, nOps int) {
 		r.Violation("C16/primary/observe-error", err.Error(), h.witness(nil))
 		return
 	}
-	if err := h.db.Close(); err != nil {
+	if err := mdkClose(h.db); err != nil {
 		r.Violation("C16/primary/close-error", err.Error(), h.witness(nil))
 		h.db = nil
 		return
@@ -763,14 +764,14 @@ func c16RunHistory(r *verifkit.Run, w *verifkit.Worker, idx, nOps int) {
 		rep, err := h.observe(rdb)
 		if err != nil {
 			r.Violation("C16/replica/observe-error", err.Error(), h.witness(map[string]any{"replica": t.label}))
-			_ = rdb.Close()
+			_ = mdkClose(rdb)
 			continue
 		}
 		known, unknown := h.compare(t.label, p, rep, t.snap)
 		w.Count("replica.compared", 1)
 		w.Count("replica.compared."+kind, 1)
 		// reopening the replica must change nothing (the stored offset covers what was applied)
-		if err := rdb.Close(); err != nil {
+		if err := mdkClose(rdb); err != nil {
 			r.Violation("C16/replica/close-error", err.Error(), h.witness(map[string]any{"replica": t.label}))
 			continue
 		}
@@ -780,7 +781,7 @@ func c16RunHistory(r *verifkit.Run, w *verifkit.Worker, idx, nOps int) {
 				r.Violation("C16/replica/second-open-error", "a replica that replayed the binlog cannot be opened again: "+err.Error(), h.witness(map[string]any{"replica": t.label}))
 			} else {
 				d2, err := mdkDumpAll(rdb2)
-				_ = rdb2.Close()
+				_ = mdkClose(rdb2)
 				if err != nil {
 					r.Violation("C16/replica/observe-error", err.Error(), h.witness(map[string]any{"replica": t.label}))
 				} else if diffs := mdkCompareDumps(rep.Dump, d2); len(diffs) > 0 {
@@ -824,4 +825,5 @@ func TestVerifC16(t *testing.T) {
 			w.Count("histories", 1)
 		}
 	})
+	r.SetCounter("goroutines_at_end", int64(runtime.NumGoroutine()))
 }
